@@ -272,6 +272,7 @@ def run_check(pid, tier, seed):
         'samples': [c.get('desc', c['lines'][:6]) for c in cases[:3]] + ([cases[-1].get('desc', cases[-1]['lines'][:6])] if len(cases) > 3 else []),
         'distribution': mod.distribution(cases) if hasattr(mod, 'distribution') else {},
         'correspondence_mismatches': len(mismatching),
+        'unproved_ops': getattr(mod, 'UNPROVED', []),
         'broken': broken,
         'known_findings_printed': known_lines,
         'notes': notes,
